@@ -91,6 +91,45 @@ Proof.
   - intros _. apply Sim_bind; [|intros _; apply Sim_ret].
     apply (Sim_exec ivar ivar_spec nos nos_inj pc Hl PGoOrigin I).
 Qed.
+
+Lemma Sim_write_pts : forall pts, Sim (src_write pc (cols pts) ;;; ret tt) (exec (abs_cfg pc) (OWrite pts)).
+Proof.
+  intros pts. apply (Sim_ext ivar nos _ (fun st => seq (do_write (abs_cfg pc) st pts) (fun st => (st, [], Ok)))).
+  { intros st. apply seq_ret_r. }
+  apply Sim_bind; [apply (Sim_write ivar nos pc pts Hl)|intros _; apply Sim_ret].
+Qed.
+
+Lemma Sim_for_each_flat_w : forall {A} (c : cfg) (F : A -> list op) (f : A -> unit -> MP unit) (l : list A),
+  (forall a, In a l -> Sim (f a tt) (exec_list c (F a))) ->
+  Sim (for_each l tt f) (exec_list c (flat_map F l)).
+Proof.
+  intros A c F f l. induction l as [|a l IH]; intros H.
+  - cbn. apply Sim_ret.
+  - cbn [for_each flat_map].
+    apply (Sim_ext ivar nos _ (fun st => seq (exec_list c (F a) st) (exec_list c (flat_map F l)))).
+    { intros st. symmetry. apply exec_list_app. }
+    apply Sim_bind; [apply H; now left|]. intros []. apply IH. intros b Hb. apply H. now right.
+Qed.
+
+(* NasuWriter.pgm: every Nasu waveguide once per entry of its pass order, in that order, shifted by that entry; then home *)
+Theorem SRC_nwg_body : forall ns,
+  Sim (src_nwg_body pc ns) (exec_list (abs_cfg pc) (nasu_ops ns)).
+Proof.
+  intros ns. unfold src_nwg_body, nasu_ops.
+  set (F := fun n : nobj => map (fun k => OWrite (map (shift_pt k (n_shift n)) (n_pts n))) (nasu_order (n_adj n))).
+  apply (Sim_ext ivar nos _ (fun st => seq (exec_list (abs_cfg pc) (flat_map F ns) st)
+                                        (fun st => seq (exec (abs_cfg pc) OGoInit st) (fun st => (st, [], Ok))))).
+  { intros st. rewrite exec_list_app. f_equal. }
+  apply Sim_bind.
+  - apply (Sim_for_each_flat_w (abs_cfg pc) F). intros n _.
+    apply (Sim_ext ivar nos _ (fun st => seq (exec_list (abs_cfg pc) (F n) st) (fun st => (st, [], Ok))));
+      [intros st; apply seq_ret_r|].
+    apply Sim_bind; [|intros _; apply Sim_ret].
+    unfold F. apply (Sim_for_each_unit (abs_cfg pc) (fun k => OWrite (map (shift_pt k (n_shift n)) (n_pts n)))). intros k _.
+    destruct (n_shift n) as [[dx dy] dz]. apply Sim_write_pts.
+  - intros _. apply Sim_bind; [|intros _; apply Sim_ret].
+    apply (Sim_exec ivar ivar_spec nos nos_inj pc Hl PGoInit I).
+Qed.
 End WithCfg.
 End Wr.
 
@@ -108,3 +147,10 @@ Theorem SRC_C08_mk_program : forall ivar nos,
   PgmEquiv.Sim ivar nos (src_mk_body pc ms) (exec_list (abs_cfg pc) (mk_ops ms)).
 Proof. intros ivar nos Hi Hn pc ms Hl. exact (SRC_mk_body ivar Hi nos Hn pc Hl ms). Qed.
 Print Assumptions SRC_C08_mk_program.
+
+Theorem SRC_C08_nasu_program : forall ivar nos,
+  (forall a b, ivar a = ivar b <-> lower a = lower b) -> (forall a b, nos a = nos b -> a = b) ->
+  forall pc ns, laser_ok (abs_cfg pc) = true ->
+  PgmEquiv.Sim ivar nos (src_nwg_body pc ns) (exec_list (abs_cfg pc) (nasu_ops ns)).
+Proof. intros ivar nos Hi Hn pc ns Hl. exact (SRC_nwg_body ivar Hi nos Hn pc Hl ns). Qed.
+Print Assumptions SRC_C08_nasu_program.
